@@ -4,6 +4,8 @@
   exit-status rules of `cdi` and `validate`.
 -/
 import CdiModel.Basic
+import CdiModel.Path
+import CdiModel.AnnotationsSpec
 namespace Cdi.Cli
 open Cdi
 
@@ -53,5 +55,87 @@ def validateExit (schemaOK : List Bool) : Nat := if schemaOK.all id then 0 else 
 /-- the lines the tool prints on standard output: one per valid document, in argument order -/
 def validateLines (docs : List (String × Bool)) : List String :=
   (docs.filter (·.2)).map (fun d => d.1 ++ ": document is valid.")
+
+/-! ### Details: `--verbose`, `--output`, `dirs`, the `specs` vendor arguments, `inject` patterns -/
+
+/-- `chooseFormat(format, path)` (format.go): an explicit format wins; otherwise the extension of the
+path when it is `.json` or `.yaml`; otherwise `yaml` -/
+def chooseFormat (format path : Str) : Str :=
+  if format = [] then
+    let e := Path.ext path
+    if e = lit ".json" ∨ e = lit ".yaml" then e.drop 1 else lit "yaml"
+  else format
+
+/-- `marshalObject` picks `json.MarshalIndent` for the format `json` and `yaml.v3` for anything else -/
+def pick (format json yaml : Str) : Str := if format = lit "json" then json else yaml
+
+/-- `indent(level)` -/
+def indent (level : Nat) : Str := List.replicate level 32
+
+/-- `strings.TrimSuffix(s, "\n")` -/
+def trimNL (s : Str) : Str := if s.getLast? = some cNL then s.dropLast else s
+
+/-- `marshalObject(level, obj, format)` as lines, given the pretty-printer's output `raw` -/
+def marshalLines (level : Nat) (raw : Str) : List Str :=
+  (splitAll cNL (trimNL raw)).map (fun l => indent level ++ l)
+
+/-- what the library knows about a device, as far as `cdi devices -v` shows it: `devJson`/`devYaml` are
+the two pretty-printers applied to the device, `nGlobal` is the number of env, device-node, hook and
+mount entries of its Spec's own edits, `editsJson`/`editsYaml` those edits pretty-printed -/
+structure DevView where
+  name : Str
+  path : Str
+  devJson : Str
+  devYaml : Str
+  nGlobal : Nat
+  editsJson : Str
+  editsYaml : Str
+
+/-- `cdiPrintDevice(idx, dev, true, format, 2)` -/
+def renderDeviceVerbose (format : Str) (d : DevView) : List Str :=
+  let f := chooseFormat format d.path
+  (lit "  " ++ d.name ++ lit " (" ++ d.path ++ lit ")") ::
+    (marshalLines 4 (pick f d.devJson d.devYaml) ++
+      (if d.nGlobal > 0 then
+        (indent 4 ++ lit " global Spec containerEdits:") :: marshalLines 6 (pick f d.editsJson d.editsYaml)
+       else []))
+
+/-- `cdi devices [-v] [-o format]` -/
+def renderDevicesV (verbose : Bool) (format : Str) (ds : List DevView) : List Str :=
+  if verbose then
+    (if ds = [] then [line "No CDI devices found."]
+     else line "CDI devices found:" :: ds.flatMap (renderDeviceVerbose format))
+  else renderDevices (ds.map (·.name))
+
+structure SpecView where
+  path : Str
+  json : Str
+  yaml : Str
+
+/-- `cdi specs [-v] [-o format] [vendor…]` without cache errors.  The vendor arguments only take part in
+the emptiness test: the listing itself always runs over all vendors of the cache. -/
+def renderSpecsV (verbose : Bool) (format : Str) (args : List Str) (vendors : List (Str × List SpecView)) : List Str :=
+  let f := chooseFormat format (lit "format-as.yaml")
+  if args = [] ∧ vendors = [] then [line "No CDI Specs found."]
+  else line "CDI Specs found:" :: vendors.flatMap (fun v =>
+    (lit "Vendor " ++ v.1 ++ lit ":") :: v.2.flatMap (fun s =>
+      (indent 2 ++ lit "Spec File " ++ s.path) :: (if verbose then marshalLines 4 (pick f s.json s.yaml) else [])))
+
+/-- `cdi dirs` without cache errors -/
+def renderDirs (dirs : List Str) : List Str :=
+  line "CDI Spec directories in use:" ::
+    dirs.zipIdx.map (fun p => lit "  " ++ p.1 ++ lit " (priority " ++ natStr p.2 ++ lit ")")
+
+/-- `cdi inject`: the devices handed to the library - every listed device matched by at least one pattern,
+once, sorted; an ill-formed pattern that is evaluated fails the command.  `m pattern device` stands for
+`filepath.Match` (`none` = ErrBadPattern). -/
+def dedup : List Str → List Str
+  | [] => []
+  | x :: xs => if x ∈ xs then dedup xs else x :: dedup xs
+
+def selectDevices (m : Str → Str → Option Bool) (patterns devices : List Str) : Option (List Str) :=
+  if devices.any (fun d => patterns.any (fun p => (m p d).isNone)) then none
+  else some (Annotations.sortStrs
+    (dedup (devices.filter (fun d => patterns.any (fun p => m p d == some true)))))
 
 end Cdi.Cli
